@@ -158,16 +158,16 @@ var (
 
 // TLCOpts configures one TLC run.
 type TLCOpts struct {
-	Module   string
-	Cfg      string
-	Workers  int
-	HeapMB   int
-	Env      []string
-	Timeout  time.Duration
+	Module     string
+	Cfg        string
+	Workers    int
+	HeapMB     int
+	Env        []string
+	Timeout    time.Duration
 	ParallelGC bool
-	Simulate string // e.g. "num=1000" ; adds -simulate
-	Depth    int
-	Extra    []string
+	Simulate   string // e.g. "num=1000" ; adds -simulate
+	Depth      int
+	Extra      []string
 }
 
 func (c *Ctx) RunTLC(o TLCOpts) (*TLCResult, error) {
